@@ -54,6 +54,7 @@ type Ctx struct {
 	modFuncSet  map[*ssa.Function]bool
 	funcKeyMemo map[*ssa.Function]string
 	astOf       map[*ssa.Function]ast.Node
+	namedCache  []*types.Named
 }
 
 func short(pkgPath string) string {
